@@ -300,12 +300,11 @@ Definition text_encode (f : pk_form) (d : dtv) : option wire :=
 Definition text_wire_decode (w : wire) : option dtv :=
   match w with WText s => text_decode s | _ => None end.
 
-(* Avro timestamp-micros: the writer stores the instant; values whose UTC form leaves years 1..9999 are
-   refused (OverflowError), never altered.  The reader hands back EPOCH + timedelta(microseconds=n) when the
-   schema carries the logical type (fastavro) or when the raw number exceeds the reader's guard; a raw number
-   not above the guard would be taken as epoch SECONDS. *)
-Definition avro_encode (d : dtv) : option wire :=
-  if in_utc_range d then Some (WMicros (to_micros d)) else None.
+(* Avro timestamp-micros: the writer stores the instant (any instant fits a long).  The reader hands back
+   EPOCH + timedelta(microseconds=n) when the schema carries the logical type (fastavro) or when the raw number
+   exceeds the reader's guard; a raw number not above the guard would be taken as epoch SECONDS.  An instant whose
+   UTC form leaves years 1..9999 cannot be built (OverflowError on reading): refused, never altered. *)
+Definition avro_encode (d : dtv) : wire := WMicros (to_micros d).
 Definition avro_decode (logical_micros : bool) (guard : Z) (w : wire) : option dtv :=
   match w with
   | WMicros n =>
